@@ -58,7 +58,9 @@ func writeManifest() {
 	if err == nil {
 		dec := json.NewDecoder(f)
 		for dec.More() {
-			var rec struct{ ID string `json:"id"` }
+			var rec struct {
+				ID string `json:"id"`
+			}
 			if dec.Decode(&rec) != nil {
 				break
 			}
